@@ -159,6 +159,10 @@ func genLocalPeer(rng *rand.Rand) ethnode.PeerInfo {
 	case 1: // geth style: id is a hash, the enode carries the pubkey
 		p.ID = "hash" + id[:6]
 		p.Enode = "enode://" + id + "@" + p.Network.RemoteAddress
+		if rng.Intn(2) == 0 {
+			// what the peer advertises for itself need not be where it is connected from
+			p.Enode = "enode://" + id + "@" + []string{"[::]:30303", "9.9.9.9:30303", "0.0.0.0:30303", "5.6.7.8:1"}[rng.Intn(4)]
+		}
 	case 2: // short enode (falls back to the id)
 		p.Enode = "enode://x@y"
 	default:
@@ -202,6 +206,17 @@ func prefOf(t *interner, ref string) string {
 	return fmt.Sprintf("{| pf_ok := true; pf_id := %s; pf_host := %s |}", cN(t.id("raw:"+id)), cN(hn))
 }
 
+// localRef: the reference of a local peer as the property means it: the node's public key (from
+// its enode record when that carries one, else its id) at the address it is CONNECTED FROM (the
+// harness's own reading, not PeerInfo.EnodeURI, which is code under test)
+func localRef(p ethnode.PeerInfo) string {
+	id := p.ID
+	if len(p.Enode) > 8+128 {
+		id = p.Enode[8 : 8+128]
+	}
+	return "enode://" + id + "@" + p.Network.RemoteAddress
+}
+
 // readRef: is the reference a parsable enode reference, which node id does it name, and which
 // remote host (none for a bare id, localhost, loopback and unspecified addresses)
 func readRef(ref string) (ok bool, id, host string) {
@@ -240,6 +255,11 @@ type c18Round struct {
 func runC18(ctx *Ctx) {
 	agent.VerifSetTimeouts(5*time.Second, 5*time.Second)
 	n := ctx.N(250, 6000)
+	for c := 0; c < ctx.N(6, 60); c++ {
+		if ctx.Want(n + 500 + c) {
+			e2eCase(ctx, n+500+c, ctx.Sub(n+500+c), "c18-")
+		}
+	}
 	forEachCase(ctx, n, func(i int, rng *rand.Rand) {
 		t := newInterner()
 		strict := rng.Intn(2) == 0
@@ -261,7 +281,7 @@ func runC18(ctx *Ctx) {
 			for k := rng.Intn(6); k > 0; k-- {
 				if len(rd.Locals) > 0 && rng.Intn(2) == 0 { // the pool often lists what the node has
 					lp := rd.Locals[rng.Intn(len(rd.Locals))]
-					rd.Active = append(rd.Active, lp.EnodeURI())
+					rd.Active = append(rd.Active, localRef(lp))
 				} else {
 					rd.Active = append(rd.Active, genPoolRef(rng))
 				}
@@ -339,7 +359,7 @@ func runC18(ctx *Ctx) {
 			// model inputs
 			var locals, active, invalid, uris []string
 			for _, lp := range rd.Locals {
-				locals = append(locals, prefOf(t, lp.EnodeURI()))
+				locals = append(locals, prefOf(t, localRef(lp)))
 			}
 			for _, s := range rd.Active {
 				active = append(active, prefOf(t, s))
@@ -390,7 +410,7 @@ func runC18(ctx *Ctx) {
 				// when some local peer with that id is not listed under its host
 				mayDrop := map[string]bool{}
 				for _, lp := range rd.Locals {
-					ok, lid, lhost := readRef(lp.EnodeURI())
+					ok, lid, lhost := readRef(localRef(lp))
 					if !ok {
 						continue
 					}
@@ -406,19 +426,19 @@ func runC18(ctx *Ctx) {
 					}
 					both := containsStr(nodeCalls, "untrust "+lid) && containsStr(nodeCalls, "disconnect "+lid)
 					if strict && !listed && !both {
-						mon = append(mon, fmt.Sprintf("c18-strict-unlisted-kept: strict peering: local peer %s is not listed as active by the pool under its host address, yet the agent kept it (node calls: %v)", lp.EnodeURI(), nodeCalls))
+						mon = append(mon, fmt.Sprintf("c18-strict-unlisted-kept: strict peering: local peer %s is not listed as active by the pool under its host address, yet the agent kept it (node calls: %v)", localRef(lp), nodeCalls))
 					}
 					if strict && (!listed || otherHost) {
 						mayDrop[lid] = true
 					}
 				}
 				for _, lp := range rd.Locals {
-					ok, lid, _ := readRef(lp.EnodeURI())
+					ok, lid, _ := readRef(localRef(lp))
 					if !ok || declared[lid] || mayDrop[lid] {
 						continue
 					}
 					if containsStr(nodeCalls, "untrust "+lid) || containsStr(nodeCalls, "disconnect "+lid) {
-						mon = append(mon, fmt.Sprintf("c18-active-peer-dropped: local peer %s (strict=%v; active list %q) was not declared invalid and is listed as active under its host, yet the agent dropped it (node calls: %v)", lp.EnodeURI(), strict, rd.Active, nodeCalls))
+						mon = append(mon, fmt.Sprintf("c18-active-peer-dropped: local peer %s (strict=%v; active list %q) was not declared invalid and is listed as active under its host, yet the agent dropped it (node calls: %v)", localRef(lp), strict, rd.Active, nodeCalls))
 					}
 				}
 			}
